@@ -12,7 +12,7 @@ CONSTANTS
   MaxMerges = 0
   MaxSheets = 1
   KindSeq <- KindsSst
-  Rots = {0, 2, 4}
+  Rots = {0, 2}
   Layouts <- LaySst
 INVARIANTS TypeOK PlacedByRef FunctionLike MergeBlank RootShown
 CONSTRAINT Emit
